@@ -307,16 +307,23 @@ def key_columns(ctx, gm: GroupModel, rule: str) -> None:
                                 f"{'uniquify(' + repr('key') + ')' if k_[0] is None else ('uniquify(<the name>)' if k_[1] else 'the stored name as it is')}")
         else:
             # the first occurrence is recorded, and all key names are reserved before the key loop
+            # (the names may have been chosen in a loop of their own that built a list of them, one per key, which the output loop
+            #  walks: symx Loop.fused_from - what happens in that loop happens for the key at the same position)
+            from ..symx import reloop as _reloop
+            own_loops = (o.loop,) + tuple(it.loops[o.loop].fused_from)
             recorded = any(e.kind == "call" and e.term[1][0] == "attr" and e.term[1][2] == "add" and e.term[1][1] in seen_sets
-                           and e.term[2] == (N,) and o.loop in e.loops for e in it.events)
-            fresh_seen = all(not it.objs[s_[1]].init and o.loop not in it.objs[s_[1]].loops for s_ in seen_sets)
+                           and any(L_ in e.loops and e.term[2] == (_reloop(N, o.loop, L_),) for L_ in own_loops) for e in it.events)
+            fresh_seen = all(not it.objs[s_[1]].init and not any(L_ in it.objs[s_[1]].loops for L_ in own_loops) for s_ in seen_sets)
             if not (seen_sets and recorded and fresh_seen):
                 problems.append("the first key of a stored name is not recorded (a set of the names kept so far, empty before the key loop): a "
                                 "repeated key name would be kept twice")
             reserved = False
             for e in it.events:
-                if e.kind != "call" or e.term[1][0] != "attr" or e.term[1][1][0] != "obj" or e.seq >= o.ev.seq or o.loop in e.loops:
+                if e.kind != "call" or e.term[1][0] != "attr" or e.term[1][1][0] != "obj" or e.seq >= o.ev.seq or any(L_ in e.loops for L_ in own_loops):
                     continue
+                if any(it.loops[L_].node is not None and e.seq > min((x.seq for x in it.events if L_ in x.loops), default=10 ** 9)
+                       for L_ in it.loops[o.loop].fused_from):
+                    continue            # (reserved only after the names were chosen)
                 if e.term[1][2] == "update" and len(e.term[2]) == 1 and e.term[2][0][0] == "obj":
                     els = [x for x in it.events if x.kind == "elem" and x.term == e.term[2][0]]
                     if len(els) != 1 or not els[0].loops:
